@@ -3,6 +3,7 @@
 package c01
 
 import (
+	"sync"
 	"bytes"
 	"encoding/hex"
 	"fmt"
@@ -190,6 +191,9 @@ func goDiff(a, b reflect.Value, path string, depth int) string {
 // the previous MarshalTTLV result and a private copy of it (workers are single-threaded)
 var kept struct{ bytes, copy []byte }
 
+var usedEncoder = ttlv.NewTTLVEncoder()
+var usedFiller = bytes.Repeat([]byte{0xFF}, 2<<20)
+
 func CheckMessage(c *core.Ctx, prop string, msg any, minor int, desc string) ([]byte, bool) {
 	exp, err := refmodel.Tree(msg, minor)
 	if err != nil {
@@ -220,6 +224,25 @@ func CheckMessage(c *core.Ctx, prop string, msg any, minor int, desc string) ([]
 		c.Violation(prop+":wire:"+d.Kind+":"+Where(d), "the encoding does not carry exactly the populated elements: "+d.Detail+" in "+Where(d),
 			map[string]any{"message": desc, "expected": exp.String(), "on_wire": parsed.String(), "bytes": hx(enc)})
 		return enc, false
+	}
+	// the same message through an encoder that was used before (a message full of 0xFF, then Clear()): same bytes
+	if prop == "C01" {
+		var viaUsed []byte
+		if p, v, st := core.Guard(func() {
+			usedEncoder.ByteString(0x420043, usedFiller[:len(enc)+64])
+			usedEncoder.Clear()
+			usedEncoder.Any(msg)
+			viaUsed = usedEncoder.Bytes()
+		}); p {
+			usedEncoder = ttlv.NewTTLVEncoder()
+			c.Violation(core.PanicSig(v, st), fmt.Sprintf("encoding through a cleared encoder panicked: %v", v), map[string]any{"message": desc, "stack": st})
+			return enc, false
+		}
+		c.Count("messages_through_used_encoder", 1)
+		if !bytes.Equal(viaUsed, enc) {
+			c.Violation(prop+":used-encoder-differs", "an encoder that was used and cleared encodes the message differently from a new encoder", map[string]any{"message": desc, "new_encoder": hx(enc), "used_encoder": hx(viaUsed)})
+			return enc, false
+		}
 	}
 	// decode
 	back := reflect.New(reflect.TypeOf(msg).Elem()).Interface()
@@ -287,7 +310,7 @@ func nOf(q, t int) func(string) int {
 
 // Required coverage: every operation × direction, object type, key format, standard attribute.
 func required() []string {
-	req := []string{"messages", "large.byte-string", "large.long-batch", "cov.ext-after-payload:req", "cov.ext-after-payload:resp", "cov.keyvalue:wrapped", "cov.keyvalue:absent", "cov.attr:custom", "cov.op:unknown",
+	req := []string{"messages", "messages_through_used_encoder", "cold_concurrent_encodings", "large.byte-string", "large.long-batch", "cov.ext-after-payload:req", "cov.ext-after-payload:resp", "cov.keyvalue:wrapped", "cov.keyvalue:absent", "cov.attr:custom", "cov.op:unknown",
 		"cov.credential:0", "cov.credential:1", "cov.credential:2", "negative_bigints", "cov.message-and-async-value", "cov.ext-without-payload:resp"}
 	for _, o := range gen.Ops {
 		req = append(req, "cov.op:"+o.Name+":req", "cov.op:"+o.Name+":resp")
@@ -344,6 +367,74 @@ func RunCase(c *core.Ctx, r *core.Rand, i int) {
 	_, ok := CheckMessage(c, "C01", msg, minor, desc)
 	if ok && c.WantSample() {
 		c.Sample(map[string]any{"version": fmt.Sprintf("1.%d", minor), "response": resp, "tree": desc})
+	}
+}
+
+// ColdConcurrent runs in a fresh process in which nothing has been encoded yet: 16 goroutines encode the same
+// messages at the same moment, so that the library sees the message types for the first time under concurrency.
+// Every result must be the reference layout of its message.
+func ColdConcurrent(c *core.Ctx, r *core.Rand, i int) {
+	minor := i % 5
+	g := gen.New(r, gen.Mode{Minor: minor, Gate: true, Text: gen.TextBinary}, refmodel.Gates())
+	type item struct {
+		msg any
+		exp []byte
+	}
+	var items []item
+	for k := 0; k < 4; k++ {
+		op := &gen.Ops[r.Intn(27)]
+		for op.Since > minor {
+			op = &gen.Ops[r.Intn(27)]
+		}
+		var msg any
+		if k%2 == 0 {
+			m := g.Request(op)
+			msg = &m
+		} else {
+			m := g.Response(op)
+			msg = &m
+		}
+		t, err := refmodel.Tree(msg, minor)
+		if err != nil {
+			panic(fmt.Sprintf("harness: %v", err))
+		}
+		items = append(items, item{msg, wire.Gen(t)})
+	}
+	const G = 16
+	start := make(chan struct{})
+	out := make([][][]byte, G)
+	var wg sync.WaitGroup
+	for gi := 0; gi < G; gi++ {
+		wg.Add(1)
+		go func(gi int) {
+			defer wg.Done()
+			defer func() {
+				if p := recover(); p != nil {
+					out[gi] = append(out[gi], []byte(fmt.Sprintf("PANIC: %v", p)))
+				}
+			}()
+			<-start
+			for _, it := range items {
+				out[gi] = append(out[gi], ttlv.MarshalTTLV(it.msg))
+			}
+		}(gi)
+	}
+	close(start)
+	wg.Wait()
+	c.Count("cold_concurrent_rounds", 1)
+	for gi := range out {
+		for k, b := range out[gi] {
+			c.Count("cold_concurrent_encodings", 1)
+			if !bytes.Equal(b, items[k].exp) {
+				c.Violation("C01:cold-concurrent-encoding-differs", fmt.Sprintf("goroutine %d of %d, all encoding the same messages as the first thing the process does: message %d is not encoded as its reference layout", gi, G, k),
+					map[string]any{"got": hx(b), "expected": hx(items[k].exp)})
+				return
+			}
+		}
+		if len(out[gi]) != len(items) {
+			c.Violation("C01:cold-concurrent-encoding-differs", fmt.Sprintf("goroutine %d produced %d of %d encodings", gi, len(out[gi]), len(items)), nil)
+			return
+		}
 	}
 }
 
@@ -407,6 +498,7 @@ func Spec() *core.Spec {
 		Families: []core.Family{
 			{Name: "messages", N: nOf(54000, 4050000), Run: RunCase},
 			{Name: "large", N: nOf(88, 4400), Run: LargeCase},
+			{Name: "cold-concurrent", Isolated: true, N: nOf(10, 300), Run: ColdConcurrent, Timeout: 60 * time.Second},
 		},
 	}
 }
